@@ -23,6 +23,10 @@ func main() {
 		forward(nil, nil)
 	case "respond":
 		respond()
+	case "addr":
+		addr()
+	case "conn":
+		connCmd()
 	default:
 		fmt.Fprintln(os.Stderr, "unknown subcommand", os.Args[1])
 		os.Exit(2)
